@@ -1647,3 +1647,40 @@ Proof.
     + vm_compute. discriminate.
     + rewrite Hp in Hp'. injection Hp' as <-. rewrite H3. vm_compute. reflexivity.
 Qed.
+
+(* ------------------------------------------------------------------------------------------- *)
+(* without the disjointness of key and sub-domain names the statement is false of the model (and of the code):
+   a key line named like an earlier sub-domain of the same domain replaces the whole sub-domain *)
+Definition complete_full_statement : Prop := forall ps,
+  doc_ok ps -> short_lines (tokens_of ps) -> exists t, parse (render ps) = Ok t /\ represents t (piece_events ps).
+
+Definition col_doc : list piece :=
+  [POpen (raw "a"%hex) []; POpen (raw "b"%hex) []; PText (map ARaw (raw "c=2"%hex)); PClose (raw "b"%hex) [];
+   PText (map ARaw (raw "b=1"%hex)); PClose (raw "a"%hex) []].
+
+Example col_doc_ok : doc_ok col_doc.
+Proof. unfold doc_ok. split; [|split]; solve_ok. Qed.
+Example col_short : short_lines (tokens_of col_doc).
+Proof.
+  intros t seg Hin Hseg. vm_compute in Hin.
+  repeat (destruct Hin as [Hin|Hin]; [first [discriminate Hin | injection Hin as <-; vm_compute in Hseg;
+    repeat (destruct Hseg as [<-|Hseg]; [vm_compute; reflexivity|]); contradiction]|]).
+  contradiction.
+Qed.
+
+Theorem complete_full_refuted : ~ complete_full_statement.
+Proof.
+  intros H. destruct (H col_doc col_doc_ok col_short) as (t & Hp & R).
+  assert (E : parse (render col_doc) = Ok (run_events (piece_events col_doc))) by (apply parse_rendered; [apply col_doc_ok|apply col_short]).
+  rewrite E in Hp. injection Hp as <-.
+  pose proof (rep_key _ _ R [raw "b"%hex; raw "a"%hex; root_name] (raw "c"%hex)) as K.
+  assert (H1 : raw "c"%hex <> []) by discriminate.
+  assert (H2 : assigns (piece_events col_doc) [raw "b"%hex; raw "a"%hex; root_name] (raw "c"%hex) <> []) by (vm_compute; discriminate).
+  specialize (K H1 H2). vm_compute in K. discriminate.
+Qed.
+
+(* observable through the getters: /a/b<c> was written as 2 and reads as the default *)
+Example col_observable : exists t, parse (render col_doc) = Ok t /\
+  get_string_def t (raw "/a/b<c>"%hex) (raw "?"%hex) = Ok (raw "?"%hex) /\ get_string_def t (raw "/a<b>"%hex) [] = Ok (raw "1"%hex)
+  /\ get_domain t (raw "/a"%hex) = Ok [].
+Proof. eexists. split; [apply parse_rendered; [apply col_doc_ok|apply col_short]|]. vm_compute. repeat split. Qed.
